@@ -1,5 +1,5 @@
 (** C02 - No task is lost or stuck: runnable work always gets run, jobs terminate. *)
-From HQ Require Import Base.Prelude Cluster.Types Cluster.Core Cluster.Reactor Cluster.Worker Cluster.Server Cluster.Sys Cluster.Monitors Cluster.ProofsJob Cluster.ProofsCore Cluster.ProofsMore Cluster.BijBase Cluster.BijFinal Cluster.BijWitness Cluster.RejHyp Cluster.InvWFinal Cluster.InvAll Cluster.NoPanicU0 Cluster.NoPanicU1 Cluster.NoPanicU20 Cluster.NoFresh Cluster.RestU1 Cluster.RestU12 Cluster.RestU13 Cluster.InvBundle Cluster.NoWf.
+From HQ Require Import Base.Prelude Cluster.Types Cluster.Core Cluster.Reactor Cluster.Worker Cluster.Server Cluster.Sys Cluster.Monitors Cluster.ProofsJob Cluster.ProofsCore Cluster.ProofsMore Cluster.BijBase Cluster.BijFinal Cluster.BijWitness Cluster.RejHyp Cluster.InvWFinal Cluster.InvAll Cluster.NoPanicU0 Cluster.NoPanicU1 Cluster.NoPanicU20 Cluster.NoFresh Cluster.RestU1 Cluster.RestU12 Cluster.RestU13 Cluster.InvBundle Cluster.NoWf Cluster.NoPanicFull Cluster.RetractFree Cluster.Wake Cluster.WakeStep Cluster.WakeWitness Cluster.WakeRest Cluster.WakeSubmit Cluster.WakeCancel.
 From Coq Require Import ZArith.
 Local Open Scope N_scope.
 
@@ -157,6 +157,125 @@ Theorem C02_all_invariants_inputs_only : forall ops r m s outs,
   ops_ok (init_sys r m) ops = true -> run (init_sys r m) ops = Ok (s, outs) -> INV s /\ PROTO s.
 Proof. exact reachable_all_nowf. Qed.
 
+(** "RUNNABLE WORK IS NOT FORGOTTEN" (the progress half, as far as it is a safety property).
+    The scheduler sleeps while the flag [c_flag] is off; a round clears it.  [placeable c]
+    (Cluster/Wake.v, executable): some request class holding a ready task of the top ready priority
+    fits a connected worker NOW (single-node: worker in single-node mode, not stopping, class not
+    blocked there, free amounts cover the request; multi-node: some group has enough free
+    workers, free as [Worker::is_free] after the repair of F28).  [sched_complete s sol]: the
+    solver's completeness contract for one answer - on the state after the round nothing is
+    placeable.  [wake_inv s]: flag on, or nothing placeable, or a task in flight ([busy]: the
+    worker owes the server a message that sets the flag).
+
+    The full statement - NOT proved, and false of the server as it was (the three witnesses
+    below; F30 and F31 reproduced on the real code and since repaired, the third is a witness of
+    the model that the real solver's choices avoid): *)
+Definition C02_wakeup_full : Prop := forall ops r m s outs,
+  ops_ok (init_sys r m) ops = true -> ops_complete (init_sys r m) ops = true ->
+  run (init_sys r m) ops = Ok (s, outs) -> wake_inv s = true.
+
+(** What is proved: [wake_inv] is preserved by EVERY operation, where for OpCancel, OpDUp, OpSubmit,
+    OpSubmitG this is an executable per-step hypothesis ([ops_wake_checked]: [wake_inv] holds after
+    the step - a monitor), and for all other operations - worker connection and loss (flag left
+    set), scheduling rounds (contract), open / close / forget / prune, deliveries to workers,
+    task ends, timers (core untouched) - it is a theorem. *)
+Theorem C02_wakeup_step_partial : forall s o s' outs,
+  wake_inv s = true -> step s o = Ok (s', outs) -> op_complete s o = true -> op_wake_checked s o = true -> wake_inv s' = true.
+Proof. exact wake_step. Qed.
+Theorem C02_wakeup_partial : forall r m ops s outs,
+  run (init_sys r m) ops = Ok (s, outs) -> ops_complete (init_sys r m) ops = true -> ops_wake_checked (init_sys r m) ops = true ->
+  wake_inv s = true.
+Proof. exact wake_reachable. Qed.
+
+(** The property's text at rest: every non-terminal task of the JOB LAYER is known to the scheduler
+    and is (a) waiting for an unfinished dependency, or (b) ready while its class - if it holds a
+    ready task of the top ready priority - fits no connected worker (a lower-priority class waits
+    behind a top-priority class that fits nowhere: C15's rule), or (c) prefilled with its entry in
+    the worker's backlog.  First from [wake_inv] in the state itself, then for histories. *)
+Theorem C02_rest_no_runnable_work_inv : forall ops r m s outs,
+  Forall op_wf ops -> ops_ok (init_sys r m) ops = true -> run (init_sys r m) ops = Ok (s, outs) -> at_rest s -> wake_inv s = true ->
+  forall j jb i, find_job (h_jobs (s_hq s)) j = Some jb -> (jt_find (j_tasks jb) i = Some JW \/ jt_find (j_tasks jb) i = Some JR) ->
+  exists t, find_task (c_tasks (s_core s)) (j, i) = Some t /\
+    match t_state t with
+    | Waiting n =>
+        n <> 0 \/
+        (n = 0 /\ forall top, queues_top_priority (c_queues (s_core s)) = Some top ->
+                    at_top top (queue_of (s_core s) (t_rq t)) = true -> class_fits (s_core s) (N.to_nat (t_rq t)) = false)
+    | Prefilled w => exists p, find_proc (s_procs s) w = Some p /\ bl_count (j, i) (p_backlog p) = 1%nat
+    | _ => False
+    end.
+Proof. exact rest_no_runnable_work_inv. Qed.
+Theorem C02_rest_no_runnable_work : forall ops r m s outs,
+  Forall op_wf ops -> ops_ok (init_sys r m) ops = true -> ops_complete (init_sys r m) ops = true -> ops_wake_checked (init_sys r m) ops = true ->
+  run (init_sys r m) ops = Ok (s, outs) -> at_rest s ->
+  forall j jb i, find_job (h_jobs (s_hq s)) j = Some jb -> (jt_find (j_tasks jb) i = Some JW \/ jt_find (j_tasks jb) i = Some JR) ->
+  exists t, find_task (c_tasks (s_core s)) (j, i) = Some t /\ task_at_rest_ok s (j, i) t.
+Proof. exact rest_no_runnable_work. Qed.
+Theorem C02_rest_nothing_placeable : forall ops r m s outs,
+  Forall op_wf ops -> ops_ok (init_sys r m) ops = true -> ops_complete (init_sys r m) ops = true -> ops_wake_checked (init_sys r m) ops = true ->
+  run (init_sys r m) ops = Ok (s, outs) -> at_rest s -> placeable (s_core s) = false.
+Proof. exact rest_nothing_placeable. Qed.
+
+(** The submits are proved too (a submit that creates a task leaves the flag set; one that creates none
+    at most appends empty request classes - needs the queue invariant, hence [op_wf] / [ops_ok]):
+    the checked steps are OpCancel and OpDUp only ([ops_wake_checked_cd]) - the two operations in
+    which the lost wake-ups below were found. *)
+Theorem C02_wakeup_partial_cd : forall r m ops s outs,
+  Forall op_wf ops -> ops_ok (init_sys r m) ops = true -> ops_complete (init_sys r m) ops = true -> ops_wake_checked_cd (init_sys r m) ops = true ->
+  run (init_sys r m) ops = Ok (s, outs) -> wake_inv s = true.
+Proof. exact wake_reachable_cd. Qed.
+Theorem C02_rest_no_runnable_work_cd : forall ops r m s outs,
+  Forall op_wf ops -> ops_ok (init_sys r m) ops = true -> ops_complete (init_sys r m) ops = true -> ops_wake_checked_cd (init_sys r m) ops = true ->
+  run (init_sys r m) ops = Ok (s, outs) -> at_rest s ->
+  forall j jb i, find_job (h_jobs (s_hq s)) j = Some jb -> (jt_find (j_tasks jb) i = Some JW \/ jt_find (j_tasks jb) i = Some JR) ->
+  exists t, find_task (c_tasks (s_core s)) (j, i) = Some t /\ task_at_rest_ok s (j, i) t.
+Proof. exact rest_no_runnable_work_cd. Qed.
+
+(** ... and so are all cancels except the QUIET ones ([cancel_quiet]: every live task of the job that
+    the scheduler knows is Prefilled): [on_cancel_tasks] asks for scheduling in every arm but the
+    Prefilled one, so a cancel that finds a task in any other state leaves the flag set.  Checked
+    steps ([ops_wake_checked_q]): OpDUp and quiet cancels - exactly where the three witnesses live. *)
+Theorem C02_wakeup_partial_q : forall r m ops s outs,
+  Forall op_wf ops -> ops_ok (init_sys r m) ops = true -> ops_complete (init_sys r m) ops = true -> ops_wake_checked_q (init_sys r m) ops = true ->
+  run (init_sys r m) ops = Ok (s, outs) -> wake_inv s = true.
+Proof. exact wake_reachable_q. Qed.
+Theorem C02_cancel_sets_flag : forall s j s' outs,
+  step s (OpCancel j) = Ok (s', outs) -> cancel_quiet s j = false -> c_flag (s_core s') = true.
+Proof. exact step_cancel_flag. Qed.
+Theorem C02_rest_no_runnable_work_q : forall ops r m s outs,
+  Forall op_wf ops -> ops_ok (init_sys r m) ops = true -> ops_complete (init_sys r m) ops = true -> ops_wake_checked_q (init_sys r m) ops = true ->
+  run (init_sys r m) ops = Ok (s, outs) -> at_rest s ->
+  forall j jb i, find_job (h_jobs (s_hq s)) j = Some jb -> (jt_find (j_tasks jb) i = Some JW \/ jt_find (j_tasks jb) i = Some JR) ->
+  exists t, find_task (c_tasks (s_core s)) (j, i) = Some t /\ task_at_rest_ok s (j, i) t.
+Proof. exact rest_no_runnable_work_q. Qed.
+
+(** The hypotheses are satisfiable on a non-trivial history at rest: a task too big for the
+    connected worker stays ready, a fitting one has run; both scheduling answers are complete. *)
+Theorem C02_rest_example :
+  Forall op_wf ex_ops /\ ops_ok (init_sys 0 2) ex_ops = true /\ ops_complete (init_sys 0 2) ex_ops = true /\
+  ops_wake_checked (init_sys 0 2) ex_ops = true /\
+  exists s outs, run (init_sys 0 2) ex_ops = Ok (s, outs) /\ at_rest s /\
+    map (fun t => (t_id t, t_state t)) (c_tasks (s_core s)) = [((1, 0), Waiting 0)] /\
+    class_fits (s_core s) 0 = false /\ placeable (s_core s) = false /\
+    map (fun jb => (j_id jb, j_tasks jb)) (h_jobs (s_hq s)) = [(1, [(0, JW)]); (2, [(0, JF)])].
+Proof. exact rest_example. Qed.
+
+(** LOST WAKE-UPS (findings F30, F31, and a third of the model only): histories of the transition
+    system with the functions as they were before the repairs ([step_pre] / [run_pre] of
+    Cluster/WakeWitness.v) that meet every hypothesis - [op_wf], [hyp] = [op_ok] + [sol_ok] +
+    [sched_retract_ok] + distinct ids, every answer [sched_complete] - and end at rest, nothing in
+    flight, flag off, with a ready task of the top priority that fits the idle worker.
+    F30: the worker's [Finished t; RunningPrefilled t'] meets a cancel of t' (reproduced).
+    F31: [on_retract_response] never asks for scheduling (reproduced).
+    Third: the Prefilled arm of [on_cancel_tasks] does not ask (model; the real solver re-places
+    the prefilled task first). *)
+Theorem C02_lost_wakeup_prefill_pair_cancel_refuted : lost_wakeup 0 1 w1_ops.
+Proof. exact wakeup_prefill_pair_cancel_refuted. Qed.
+Theorem C02_lost_wakeup_retract_response_refuted : lost_wakeup 0 2 w2_ops.
+Proof. exact wakeup_retract_response_refuted. Qed.
+Theorem C02_lost_wakeup_cancel_prefilled_refuted : lost_wakeup 0 2 w3_ops.
+Proof. exact wakeup_cancel_prefilled_refuted. Qed.
+
 Print Assumptions C02_queue_invariant.
 Print Assumptions C02_worker_sets_invariant.
 Print Assumptions C02_no_phantom_no_orphan.
@@ -173,3 +292,17 @@ Print Assumptions C02_at_rest_no_redirects.
 Print Assumptions C02_at_rest_no_assigned.
 Print Assumptions C02_op_wf_not_needed.
 Print Assumptions C02_all_invariants_inputs_only.
+Print Assumptions C02_wakeup_step_partial.
+Print Assumptions C02_wakeup_partial.
+Print Assumptions C02_rest_no_runnable_work_inv.
+Print Assumptions C02_rest_no_runnable_work.
+Print Assumptions C02_rest_nothing_placeable.
+Print Assumptions C02_rest_example.
+Print Assumptions C02_lost_wakeup_prefill_pair_cancel_refuted.
+Print Assumptions C02_lost_wakeup_retract_response_refuted.
+Print Assumptions C02_lost_wakeup_cancel_prefilled_refuted.
+Print Assumptions C02_wakeup_partial_cd.
+Print Assumptions C02_rest_no_runnable_work_cd.
+Print Assumptions C02_wakeup_partial_q.
+Print Assumptions C02_cancel_sets_flag.
+Print Assumptions C02_rest_no_runnable_work_q.
